@@ -125,6 +125,19 @@ def W(t):
 def gen(rng, tier):
     reqs = []
     rounds = 6 if tier == "thorough" else 1
+    # ---- large bit sizes around power-of-two WORD counts (2^8 … 2^14 words; 2^15 in the thorough tier): a fill done in
+    # pieces (a chunked `fill`, a staged buffer) treats the last piece specially, and the top-word shift must happen
+    # exactly once whatever the piece count (C18-u1: pieces of 2^14 words, shift skipped when the remainder is empty)
+    if True:
+        for k in ([8, 10, 12, 13, 14] + ([9, 11, 15] if tier == "thorough" else [])):
+            words = 1 << k
+            for n in (32 * words - 31, 32 * words - 1, 32 * words, 32 * words + 1, 32 * words - 17):
+                ln = wlen(n)
+                kind = rng.choice(["ones", "mix"])
+                t = [M32] * ln if kind == "ones" else splitmix(rng, ln)
+                reqs.append("C18 gen_biguint %d %s" % (n, W(t)))
+                if n % 32 == 31 or tier == "thorough":
+                    reqs.append("C18 gen_bigint %d %s" % (n, W([M32] * ln + [rng.choice([0, M32, 1 << 31])])))
     for _ in range(rounds):
         # ---- gen_biguint / RandomBits<BigUint> / gen_bigint / RandomBits<BigInt>
         for n in bit_sizes(rng, tier):
